@@ -1,10 +1,11 @@
 import PydraModel.Typing.NoConfusion
+import PydraModel.Typing.Idem
 /-
 C20 — Accepted field values conform to the declared type.
 
 Property theorems only; the model is `Typing/Model.lean` (`coerce` mirrors `TypeParser.coerce`), the class
 tables are regenerated from the running interpreter (`Gen/TypeTables.lean`), helper lemmas and the
-inductions live in `Typing/{Tables,Lemmas,Sound,NoConfusion}.lean`.
+inductions live in `Typing/{Tables,Lemmas,Sound,NoConfusion,Idem}.lean`.
 
 `cfgOf sac` is `TypeParser(T, superclass_auto_cast=sac)` with the default tables; `fieldCfg`
 (= `cfgOf fieldParserSac`, the flag is read from builder.py::make_converter) is the parser on task fields.
@@ -102,6 +103,24 @@ example : d13b (.union [.cls .str, .gen .list [.cls .str]]) (.seq .tuple [.atom 
   decide +kernel
 example : coerce (cfgOf true) (.union [.cls .str, .gen .list [.cls .str]]) (.seq .tuple [.atom .str (.str "a".toList)])
     = .ok (.seq .list [.atom .str (.str "a".toList)]) := by with_unfolding_all rfl
+
+/-! ## Clause 3: coercing an accepted value again leaves it unchanged -/
+
+/-- PARTIAL, restricted grammar `_unionFree`: for types without `Union`/`Optional` (any nesting of classes, Any,
+    list/tuple/set/frozenset/dict/abstract-container generics, `tuple[T, ...]`, `MultiInputObj[T]`), under the
+    same exclusions as clause 1, the stored value is a fixpoint of the coercion.  For unions the statement is
+    false on the pinned tree (`C20_witness_union`, finding D13u). -/
+theorem C20_idem_partial_unionFree (sac : Bool) (t : Ty) (v v' : V) (hw : t.wf = true) (hu : t.unionFree = true)
+    (h13 : d13 t v = false) (hb : bytesAtGen t v = false)
+    (h : coerce (cfgOf sac) t v = .ok v') : coerce (cfgOf sac) t v' = .ok v' :=
+  coerce_idem sac t v v' hw hu h13 hb h
+
+example : (Ty.gen .dict [.cls .str, .gen .set [.cls .float]]).unionFree = true := by decide
+/-- non-vacuity: the first pass really changes the value (list -> set, int/bool -> float, duplicates dropped) -/
+example : coerce (cfgOf true) (.gen .dict [.cls .str, .gen .set [.cls .float]])
+    (.map .dict [.atom .str (.str "k".toList)] [.seq .list [.atom .int (.int 1), .atom .bool (.int 1), .atom .int (.int 2)]])
+    = .ok (.map .dict [.atom .str (.str "k".toList)] [.seq .set [.atom .float (.int 1), .atom .float (.int 2)]]) := by
+  with_unfolding_all rfl
 
 /-! ## The table-level reason (re-proved over the regenerated tables on every run) -/
 
